@@ -16,7 +16,7 @@ RULE = ("one real ExtendedDaemonSet Reconcile per point of the product of the qu
         "x replica-set age {duration-1s, duration, duration+1s} x noRestartsDuration {unset, 0, 300s} x last restart {none, "
         "noRestarts-1s ago, noRestarts+1s ago} x pause source {none, annotation, replica-set condition} x unpause {absent, true} x "
         "canary-valid {absent, this replica set, another} x Canary-Failed {no, yes} x recorded active replica set {present, gone}: "
-        "5832 points, enumerated completely in the thorough tier, sampled (400) in the quick tier, plus random ExtendedDaemonSet "
+        "11664 points, enumerated completely in the thorough tier, sampled (400) in the quick tier, plus random ExtendedDaemonSet "
         "worlds. Non-trivial = a status write changed or could have changed activeReplicaSet (two distinct candidates).")
 ASSUMPTIONS = [
     "the two replica-set pointers never alias inside Reconcile (the up-to-date one is a deep copy)",
@@ -46,11 +46,12 @@ FACTORS = [
     [None, "this", "other"],              # canary-valid
     [False, True],                        # failed
     [True, False],                        # active present
+    [False, True],                        # status.canary still names the replica set of an earlier canary (the one "other" names)
 ]
 
 
 def lattice_case(pt):
-    strat, age, nr, rst, pause, unpause, valid, failed, active_present = pt
+    strat, age, nr, rst, pause, unpause, valid, failed, active_present, stale = pt
     canary = None
     if strat != "none":
         canary = K.default_canary(replicas=1, duration=DUR if strat == "auto" else None, mode=strat,
@@ -77,7 +78,7 @@ def lattice_case(pt):
     objs = [K.node("n0", labels={"role": "w"}), K.node("n1", labels={"role": "w"})]
     est = K.eds_status(active="foo-a" if active_present else "foo-gone", desired=2, current=2, ready=2, available=2, uptodate=2,
                        state="Canary" if canary else "Running",
-                       canary={"replicaSet": "foo-b", "nodes": ["n0"]} if canary else None)
+                       canary={"replicaSet": "foo-zz" if stale else "foo-b", "nodes": ["n0"]} if canary else None)
     objs.append(K.eds(NS, EDS, tplB, strategy=s, annotations=ann or None, status=est))
     if active_present:
         objs.append(K.ers(NS, "foo-a", EDS, tplA, created=-3000, status=K.ers_status(status="active", desired=2, current=2, ready=2, available=2)))
@@ -92,7 +93,7 @@ def generate(rng, tier, stats):
         pts = rng.sample(pts, 400)
     out = [lattice_case(pt) for pt in pts]
     stats["lattice_points"] = len(pts)
-    stats["lattice_total"] = 5832
+    stats["lattice_total"] = 11664
     nw = 100 if tier == "quick" else 1500
     for _ in range(nw):
         out.append(worldgen.gen_eds_world(rng, stats, {"scenario": rng.choice(["canary_running", "canary_running", "canary_failed", "active_missing", "no_canary_update", "many_rs"])}))
